@@ -203,6 +203,32 @@ def check(case):
                 f"{algo}: f(s[pi], t[pi]) != f(s, t)[pi] for the {name} permutation at {int(bad.sum())} of {n} positions "
                 f"(max diff {float(np.max(np.abs(v2 - vals[perm]))):.3g}): values do not follow their PSM")
     counters = {"values_checked": n}
+    if algo == "from_counts" and not has_ties and not infinite:
+        # metamorphic: the estimate is pi0 * (#T/#D) * D(x)/T(x); listing every decoy twice doubles D(x) and halves #T/#D,
+        # so q/pi0 (pi0 = mokapot's own estimate for the respective list) must not change for any target
+        import mokapot.peps as mpeps
+
+        def _pi0(sc_, tg_):
+            _, td_, dd_ = mpeps.hist_data_from_scores(sc_, tg_, density=True)
+            return float(mpeps.estimate_pi0_by_slope(td_, dd_))
+
+        s2 = np.concatenate([scores, scores[~targets]])
+        t2 = np.concatenate([targets, np.zeros(int((~targets).sum()), dtype=bool)])
+        try:
+            q2 = np.asarray(guarded(f, s2.copy(), t2.copy(), allowed=ALLOWED, sig=algo), dtype=float)[:n]
+            p1, p2 = _pi0(scores, targets), _pi0(s2, t2)
+        except (Rejected, TypeError):
+            p1 = p2 = float("nan")
+        if np.isfinite(p1) and np.isfinite(p2) and p1 > 0 and p2 > 0:
+            rk = np.empty(n, dtype=int)
+            rk[order] = np.cumsum(targets[order])
+            m = targets & (rk >= 30) & np.isfinite(vals) & (vals > 0) & np.isfinite(q2)
+            if m.any():
+                dev = np.abs((q2[m] / p2) / (vals[m] / p1) - 1.0)
+                require(bool(dev.max() <= 0.05), "decoy-list-length",
+                        f"from_counts: with every decoy listed twice q/pi0 changes by a factor {float(((q2[m] / p2) / (vals[m] / p1)).max()):.3g} "
+                        f"(targets {int(targets.sum())}, decoys {int((~targets).sum())}): the estimate does not account for the lengths of the two lists")
+                counters["decoy_duplication_checked"] = int(m.sum())
     if algo == "qvality":
         ref_s, ref_p, _ = _triqler(scores, targets)
         require(len(ref_p) == n, "harness-triqler", "triqler returned another length")
